@@ -282,9 +282,34 @@ def _isnan(kind):
     return fn
 
 
+class DistinctCells:
+    """equality oracle of the generic sheets: two cells the rule names differently hold different numbers (the sheets
+    in which one value stands in several cells use one name for it).  Order and arithmetic stay open."""
+
+    @staticmethod
+    def bare(r):
+        if isinstance(r, Rat) and r.is_monomial():
+            ats = list(r.atoms())
+            if len(ats) == 1 and r.eq(Rat.atom(ats[0])):
+                return ats[0]
+        return None
+
+    def __call__(self, a, op, b):
+        if op not in ('==', '!='):
+            return None
+        na, nb = self.bare(a), self.bare(b)
+        const = lambda r: isinstance(r, Rat) and (r.iszero() or r.is_const())
+        if (na is not None and const(b)) or (nb is not None and const(a)):
+            return op == '!='           # a generic cell is not one particular number
+        if na is None or nb is None:
+            return None
+        return (na == nb) if op == '==' else (na != nb)
+
+
 def new_interp(repo, book, seen=None):
     """an interpreter whose pandas.read_excel answers with book(what pandas was given) -> rows"""
     I = Interp(repo)
+    I.order = DistinctCells()
     I.int_syms.update(INT_CELLS)
     I.sym_strings.update(SYM_TEXTS)
 
